@@ -36,28 +36,42 @@ structure Fixes where
   f17 : Bool := false
   /-- F16 (c291254): print() in insert mode shifts only `i >= col+w`. -/
   f16 : Bool := false
-  /-- F101 (d31fad1): el(1) stops at the last column; rep() stops at `>=` the right margin. -/
-  f101 : Bool := false
-  /-- F102 (d4f805b): cht() (HT/CHT) stops at the right margin. -/
-  f102 : Bool := false
-  /-- F103 (6499aba): print() keeps the cursor column ≤ right margin + 1. -/
-  f103 : Bool := false
-  /-- F104 (eaf913d): osc 52 returns when no Vaxis is attached yet. -/
-  f104 : Bool := false
+  /-- F105a (d31fad1): el(1) stops at the last column; rep() stops at `>=` the right margin. -/
+  f105a : Bool := false
+  /-- F105b (d4f805b): cht() (HT/CHT) stops at the right margin. -/
+  f105b : Bool := false
+  /-- F105c (6499aba): print() keeps the cursor column ≤ right margin + 1. -/
+  f105c : Bool := false
+  /-- F105d (eaf913d): osc 52 returns when no Vaxis is attached yet. -/
+  f105d : Bool := false
   /-- F19 (3cec8c3): resize() resets the top margin and clamps both saved cursors to the new size. -/
   f19 : Bool := false
-  /-- F105 (7b2007f): bs() does not reverse-wrap from row 0. -/
-  f105 : Bool := false
-  /-- F106 (99781cb): ri() tests the top margin first and stays on row 0. -/
-  f106 : Bool := false
+  /-- F105e (7b2007f): bs() does not reverse-wrap from row 0. -/
+  f105e : Bool := false
+  /-- F105f (99781cb): ri() tests the top margin first and stays on row 0. -/
+  f105f : Bool := false
+  /-- F21 (054ce86): ich() shifts only `i >= col+ps`, blanks up to and including the right margin,
+      and the blanks are erased cells with the pen's background. -/
+  f21 : Bool := false
+  /-- F22 (f975160): il()/dl() clamp the count to `bottom - row + 1`. -/
+  f22 : Bool := false
+  /-- F54 (aed2e67): cnl()/cpl() are cud()/cuu() followed by column := left margin (no scrolling). -/
+  f54 : Bool := false
+  /-- F106b (c201973): cud() stops at the last line when it starts below the bottom margin. -/
+  f106b : Bool := false
+  /-- F106a (3986f41): vpa() moves a cursor in the pending-wrap column back to the right margin. -/
+  f106a : Bool := false
+  /-- F106c: decset 1049 clears the alternate screen on entry (with the current background). -/
+  f106c : Bool := false
   deriving DecidableEq, Repr, Inhabited
 
 /-- The code before any repair. -/
 def Fixes.none : Fixes := {}
 /-- The code as it is in /repo now (one flag per `fix:` commit made so far). -/
 def Fixes.current : Fixes :=
-  { f18 := true, f15 := true, f17 := true, f16 := true, f101 := true, f102 := true, f103 := true,
-    f104 := true, f19 := true, f105 := true, f106 := true }
+  { f18 := true, f15 := true, f17 := true, f16 := true, f105a := true, f105b := true, f105c := true,
+    f105d := true, f19 := true, f105e := true, f105f := true, f21 := true, f22 := true, f54 := true,
+    f106b := true, f106a := true, f106c := true }
 
 abbrev G := List Nat          -- a grapheme: its UTF-8 bytes
 
@@ -324,7 +338,7 @@ def nel (e : Emu) : M Emu := do
 
 def ri (fx : Fixes) (e : Emu) : M Emu :=
   let e := { e with lastCol := false }
-  if fx.f106 then
+  if fx.f105f then
     if e.cur.row = e.top then scrollDown e 1
     else if e.cur.row ≤ 0 then .ok e
     else .ok { e with cur := { e.cur with row := e.cur.row - 1 } }
@@ -380,7 +394,7 @@ def print (fx : Fixes) (e : Emu) (g0 : G) (w : Nat) : M Emu := do
       if !e.mode.decawm && decide (e.cur.col + wi > e.right) then e
       else { e with cur := { e.cur with col := e.cur.col + wi } }
     let e :=
-      if fx.f103 && decide (e.cur.col > e.right + 1) then { e with cur := { e.cur with col := e.right + 1 } } else e
+      if fx.f105c && decide (e.cur.col > e.right + 1) then { e with cur := { e.cur with col := e.right + 1 } } else e
     .ok (if decide (e.cur.col ≥ e.right + 1) && e.mode.decawm then { e with lastCol := true } else e)
 
 /-! ### csi.go -/
@@ -408,20 +422,20 @@ def dflt1 (n : Int) : Int := if n = 0 then 1 else n
 
 def blankCell : ECell := { g := [32], w := 1 }
 
-def ich (e : Emu) (n : Int) : M Emu := do
+def ich (fx : Fixes) (e : Emu) (n : Int) : M Emu := do
   let n := dflt1 n
   let col := e.cur.col
   let row := e.cur.row
   let line ← getI e.active row
-  let line1 ← forDown e.right (col + 1) (fun i line =>
-    if i - n < 0 then .ok line
+  let line1 ← forDown e.right (if fx.f21 then col + n else col + 1) (fun i line =>
+    if !fx.f21 && decide (i - n < 0) then .ok line
     else do
       let x ← getI line (i - n)
       setI line i x) line
   let line2 ← forUpBrk 0 (n - 1) (fun i line =>
-    if col + i ≥ e.width - 1 then .ok (line, false)
+    if (if fx.f21 then decide (col + i > e.right) else decide (col + i ≥ e.width - 1)) then .ok (line, false)
     else do
-      let l ← setI line (col + i) blankCell
+      let l ← setI line (col + i) (if fx.f21 then ({} : ECell).erase e.bg else blankCell)
       .ok (l, true)) line1
   let g ← setI e.active row line2
   .ok (e.setActive g)
@@ -433,11 +447,12 @@ def cuu (e : Emu) (n : Int) : Emu :=
   let r := e.cur.row - n
   { e with cur := { e.cur with row := if r < clamp then clamp else r } }
 
-def cud (e : Emu) (n : Int) : Emu :=
+def cud (fx : Fixes) (e : Emu) (n : Int) : Emu :=
   let e := { e with lastCol := false }
   let n := dflt1 n
+  let clamp : Int := if fx.f106b && !decide (e.cur.row ≤ e.bottom) then e.height - 1 else e.bottom
   let r := e.cur.row + n
-  { e with cur := { e.cur with row := if r > e.bottom then e.bottom else r } }
+  { e with cur := { e.cur with row := if r > clamp then clamp else r } }
 
 def cuf (e : Emu) (n : Int) : Emu :=
   let e := { e with lastCol := false }
@@ -451,16 +466,24 @@ def cub (e : Emu) (n : Int) : Emu :=
   let c := e.cur.col - n
   { e with cur := { e.cur with col := if c < e.left then e.left else c } }
 
-def cnl (e : Emu) (n : Int) : M Emu :=
-  let e := { e with lastCol := false }
-  let n := dflt1 n
-  repeatN nel n.toNat e
+def cnl (fx : Fixes) (e : Emu) (n : Int) : M Emu :=
+  if fx.f54 then
+    let e := cud fx e n
+    .ok { e with cur := { e.cur with col := e.left } }
+  else
+    let e := { e with lastCol := false }
+    let n := dflt1 n
+    repeatN nel n.toNat e
 
 def cpl (fx : Fixes) (e : Emu) (n : Int) : M Emu := do
-  let e := { e with lastCol := false }
-  let n := dflt1 n
-  let e ← repeatN (ri fx) n.toNat e
-  .ok { e with cur := { e.cur with col := e.left } }
+  if fx.f54 then
+    let e := cuu e n
+    .ok { e with cur := { e.cur with col := e.left } }
+  else
+    let e := { e with lastCol := false }
+    let n := dflt1 n
+    let e ← repeatN (ri fx) n.toNat e
+    .ok { e with cur := { e.cur with col := e.left } }
 
 def cha (e : Emu) (n : Int) : Emu :=
   let e := { e with lastCol := false }
@@ -496,7 +519,7 @@ def cht (fx : Fixes) (e : Emu) (n : Int) : Emu :=
   let e := { e with lastCol := false }
   let n := dflt1 n
   let c := chtLoop n e.tabs e.cur.col 0
-  let c := if fx.f102 && decide (c > e.right) then e.right else c
+  let c := if fx.f105b && decide (c > e.right) then e.right else c
   { e with cur := { e.cur with col := c } }
 
 def ed (e : Emu) (n : Int) : M Emu :=
@@ -530,7 +553,7 @@ def el (fx : Fixes) (e : Emu) (n : Int) : M Emu := do
     let g ← eraseCols e.active r e.cur.col (e.width - 1) e.bg
     .ok (e.setActive g)
   else if n = 1 then
-    let hi := if fx.f101 && decide (e.cur.col ≥ e.width) then e.width - 1 else e.cur.col
+    let hi := if fx.f105a && decide (e.cur.col ≥ e.width) then e.width - 1 else e.cur.col
     let g ← eraseCols e.active r 0 hi e.bg
     .ok (e.setActive g)
   else if n = 2 then
@@ -538,24 +561,25 @@ def el (fx : Fixes) (e : Emu) (n : Int) : M Emu := do
     .ok (e.setActive g)
   else .ok e
 
-def ilClamp (e : Emu) (n : Int) : Int :=
+def ilClamp (fx : Fixes) (e : Emu) (n : Int) : Int :=
   let n := dflt1 n
-  if e.bottom - e.cur.row < n - 1 then e.bottom - e.cur.row else n
+  if fx.f22 then (if e.bottom - e.cur.row + 1 < n then e.bottom - e.cur.row + 1 else n)
+  else if e.bottom - e.cur.row < n - 1 then e.bottom - e.cur.row else n
 
-def il (e : Emu) (n : Int) : M Emu := do
+def il (fx : Fixes) (e : Emu) (n : Int) : M Emu := do
   let e := { e with lastCol := false }
   if e.cur.row < e.top ∨ e.cur.row > e.bottom ∨ e.cur.col < e.left ∨ e.cur.col > e.right then .ok e
   else
-    let n := ilClamp e n
+    let n := ilClamp fx e n
     let g ← forDown e.bottom (e.cur.row + n) (fun r g => copyRow g r (r - n)) e.active
     let g ← forUp 0 (n - 1) (fun r g => eraseCols g (e.cur.row + r) e.left e.right e.bg) g
     .ok { (e.setActive g) with cur := { e.cur with col := e.left } }
 
-def dl (e : Emu) (n : Int) : M Emu := do
+def dl (fx : Fixes) (e : Emu) (n : Int) : M Emu := do
   let e := { e with lastCol := false }
   if e.cur.row < e.top ∨ e.cur.row > e.bottom ∨ e.cur.col < e.left ∨ e.cur.col > e.right then .ok e
   else
-    let n := ilClamp e n
+    let n := ilClamp fx e n
     let g ← forUp e.cur.row e.bottom (fun r g =>
       if r ≤ e.bottom - n then copyRow g r (r + n)
       else eraseCols g r e.left e.right e.bg) e.active
@@ -602,11 +626,12 @@ def tbc (e : Emu) (n : Int) : Emu :=
   else if n = 3 then { e with tabs := [] }
   else e
 
-def vpa (e : Emu) (n : Int) : Emu :=
+def vpa (fx : Fixes) (e : Emu) (n : Int) : Emu :=
   let e := { e with lastCol := false }
   let n := dflt1 n
   let r := n - 1
-  { e with cur := { e.cur with row := if r > e.height - 1 then e.height - 1 else r } }
+  let c := if fx.f106a && decide (e.cur.col > e.right) then e.right else e.cur.col
+  { e with cur := { e.cur with row := if r > e.height - 1 then e.height - 1 else r, col := c } }
 
 def vpr (e : Emu) (n : Int) : Emu :=
   let e := { e with lastCol := false }
@@ -634,7 +659,7 @@ def rep (fx : Fixes) (e : Emu) (n : Int) : M Emu := do
     let row ← getI e.active e.cur.row
     let ch ← getI row (col - 1)
     let g ← forUpBrk 0 (n - 1) (fun i g =>
-      if (if fx.f101 then decide (col + i ≥ e.right) else decide (col + i = e.right)) then .ok (g, false)
+      if (if fx.f105a then decide (col + i ≥ e.right) else decide (col + i = e.right)) then .ok (g, false)
       else do
         let g' ← modCell g e.cur.row (e.cur.col + i) (fun c => { c with g := ch.g, w := ch.w })
         .ok (g', true)) e.active
@@ -691,7 +716,7 @@ def hts (e : Emu) : Emu := { e with tabs := e.tabs ++ [e.cur.col] }
 def bs (fx : Fixes) (e : Emu) : Emu :=
   let e := { e with lastCol := false }
   if e.cur.col = e.left then
-    if e.cur.row = e.top || (fx.f105 && decide (e.cur.row = 0)) then e
+    if e.cur.row = e.top || (fx.f105e && decide (e.cur.row = 0)) then e
     else { e with cur := { e.cur with col := e.right, row := e.cur.row - 1 } }
   else { e with cur := { e.cur with col := e.cur.col - 1 } }
 
@@ -713,17 +738,19 @@ def smOne (tab : List (Int × ModeField)) (b : Bool) (e : Emu) (p : Param) : Emu
 def sm (e : Emu) (pm : List Param) : Emu := pm.foldl (smOne smTable true) e
 def rm (e : Emu) (pm : List Param) : Emu := pm.foldl (smOne rmTable false) e
 
-def decsetOne (e : Emu) (p : Param) : Emu :=
+def decsetOne (fx : Fixes) (e : Emu) (p : Param) : M Emu :=
   match lookupMode decsetTable p.1 with
-  | some f => { e with mode := e.mode.set f true }
+  | some f => .ok { e with mode := e.mode.set f true }
   | none =>
-    if p.1 = 7 then { e with mode := { e.mode with decawm := true }, lastCol := false }
-    else if p.1 = 1049 then
+    if p.1 = 7 then .ok { e with mode := { e.mode with decawm := true }, lastCol := false }
+    else if p.1 = 1049 then do
       let e := decsc e
-      { e with altActive := true, mode := { e.mode with smcup := true, altScroll := true } }
-    else e
+      let e := { e with altActive := true }
+      let e ← if fx.f106c then ed e 2 else .ok e
+      .ok { e with mode := { e.mode with smcup := true, altScroll := true } }
+    else .ok e
 
-def decset (e : Emu) (pm : List Param) : Emu := pm.foldl decsetOne e
+def decset (fx : Fixes) (e : Emu) (pm : List Param) : M Emu := pm.foldlM (decsetOne fx) e
 
 def decrstOne (e : Emu) (p : Param) : M Emu :=
   match lookupMode decrstTable p.1 with
@@ -888,7 +915,7 @@ def osc (fx : Fixes) (e : Emu) (data : List Nat) (info : OscInfo) : M (Emu × Na
   else if sel = [57] then .ok (e, 1)                               -- "9": notify
   else if sel = [49, 49] then .ok (e, 0)                           -- "11": reply only
   else if sel = [53, 50] then                                      -- "52"
-    if fx.f104 && !e.hasVx then .ok (e, 0)
+    if fx.f105d && !e.hasVx then .ok (e, 0)
     else if !info.b64ok then .ok (e, 0)
     else if e.hasVx then .ok (e, 0) else .error .oob               -- vt.vx.ClipboardPush on nil
   else if sel = [55, 55, 55] then                                  -- "777"
@@ -917,20 +944,20 @@ def csi (fx : Fixes) (e : Emu) (label : List Nat) (pm0 : List Param) : M Emu :=
   | none => .ok e
   | some arm =>
     match arm with
-    | .ich => ich e (ps pm)
+    | .ich => ich fx e (ps pm)
     | .cuu => .ok (cuu e (ps pm))
-    | .cud => .ok (cud e (ps pm))
+    | .cud => .ok (cud fx e (ps pm))
     | .cuf => .ok (cuf e (ps pm))
     | .cub => .ok (cub e (ps pm))
-    | .cnl => cnl e (ps pm)
+    | .cnl => cnl fx e (ps pm)
     | .cpl => cpl fx e (ps pm)
     | .cha => .ok (cha e (ps pm))
     | .cup => .ok (cup fx e pm)
     | .cht => .ok (cht fx e (ps pm))
     | .ed => ed e (ps pm)
     | .el => el fx e (ps pm)
-    | .il => il e (ps pm)
-    | .dl => dl e (ps pm)
+    | .il => il fx e (ps pm)
+    | .dl => dl fx e (ps pm)
     | .dch => dch e (ps pm)
     | .arm_53 => scrollUp e (dflt1 (ps pm))
     | .arm_54 => if pm.length = 5 then .ok e else scrollDown e (dflt1 (ps pm))
@@ -941,11 +968,11 @@ def csi (fx : Fixes) (e : Emu) (label : List Nat) (pm0 : List Param) : M Emu :=
     | .rep => rep fx e (ps pm)
     | .arm_63 => .ok e            -- DA1: reply only
     | .arm_3e63 => .ok e          -- DA2: reply only
-    | .vpa => .ok (vpa e (ps pm))
+    | .vpa => .ok (vpa fx e (ps pm))
     | .vpr => .ok (vpr e (ps pm))
     | .tbc => .ok (tbc e (ps pm))
     | .sm => .ok (sm e pm)
-    | .decset => .ok (decset e pm)
+    | .decset => decset fx e pm
     | .rm => .ok (rm e pm)
     | .decrst => decrst e pm
     | .sgr => sgr e pm
